@@ -40,8 +40,17 @@ EXPLANATION = (
     "for both backends and both builders, on four hand-built scenarios and on pseudo-random terms with closed schemes "
     "(20 quick / 120 thorough). R17f: unoptimized_contraction evaluated on terms with exponents, deltas, symbols, "
     "spin yields one hyper-contraction whose operand list is the term's tensors/deltas exponent-many times (names and "
-    "indices aligned) with the requested target indices; divisions are refused. Also R16a/R16b/R16g (scheme shape and "
-    "closure, owned by C16), which the emitted program depends on.")
+    "indices aligned) with the requested target indices, and sums every index that is not a requested target index - "
+    "also one that occurs only once (external_indices); divisions are refused. R17h: exploit_perm_sym on expressions "
+    "that contain a contribution several times (duplicates up to contracted-index names): the returned classes "
+    "re-expand to the expression, no term twice (term worlds and permutation oracle of C10). Reference behaviour "
+    "after the repairs F35-F37, F41: exact numbers never equal floats (sympy >= 1.13; sqrt prefactors are emitted and "
+    "executed end to end), symbols with exponents that are not positive integers are refused with "
+    "NotImplementedError (table and end to end), targets given explicitly sum single-occurrence indices (hand-built "
+    "and pseudo-random non-Einstein terms, rule-side model of Contraction(..., external_indices)). A sum over the axes "
+    "of a single tensor has no libtensor expression and has to be refused. Also R16a/R16b/R16g (scheme shape and "
+    "closure, owned by C16) and R10a-c (conservation law of exploit_perm_sym, owned by C10), which the emitted "
+    "program depends on.")
 ASSUMPTIONS = [
     "optimize_contractions, exploit_perm_sym, term_memory_requirements and Obj.longname are black boxes here: "
     "generate_code is evaluated on valid schemes/symmetry classes built by the rule (C16 / C15 decide the builders)",
@@ -54,6 +63,8 @@ ASSUMPTIONS = [
     "label is not decided",
     "the text of the scaling comment (N^k: O^n V^m) is not decided, only that it is a one-line comment of the backend",
     "exception messages are not decided, only the exception class",
+    "libtensor, sum over the axes of a single tensor (sum_a A_ia -> i): the library refuses with AssertionError instead "
+    "of the documented NotImplementedError; both classes are accepted as refusal here (reported, not decided)",
 ]
 
 GC = "generate_code.generate_code:"
